@@ -294,6 +294,7 @@ class Canon(object):
         for _ in range(3):
             if not self._local_aliases(fn):
                 break
+        self._continue_guard(fn)
         Spell(self, fn, cls, m).visit(fn)
         self._swap_negated_if(fn)
         ast.fix_missing_locations(fn)
@@ -1029,6 +1030,28 @@ class Canon(object):
         _fill_empty(fn)
         self.stats['aliases'] += len(cands)
         return True
+
+    # ---------------------------------------------------------------- for ..: if c: continue; REST  ->  for ..: if not c: REST
+    def _continue_guard(self, fn):
+        """A guard clause at the top level of a loop body is the nested-if form of the same loop."""
+        def fold(stmts):
+            # stmts end the loop body: `continue` at their top level and falling off their end are the same thing
+            for i, st in enumerate(stmts):
+                if isinstance(st, ast.If) and not st.orelse and len(st.body) == 1 and isinstance(st.body[0], ast.Continue) and i + 1 < len(stmts):
+                    t = st.test
+                    if isinstance(t, ast.UnaryOp) and isinstance(t.op, ast.Not):
+                        neg = t.operand
+                    elif isinstance(t, ast.Compare) and len(t.ops) == 1 and type(t.ops[0]) in NEG:
+                        neg = ast.Compare(left=t.left, ops=[NEG[type(t.ops[0])]()], comparators=t.comparators)
+                    else:
+                        neg = ast.UnaryOp(op=ast.Not(), operand=t)
+                    new = ast.If(test=ast.copy_location(neg, t), body=fold(stmts[i + 1:]), orelse=[])
+                    self.stats['spellings'] += 1
+                    return stmts[:i] + [ast.copy_location(new, st)]
+            return stmts
+        for loop in list(walk_scope(fn)):
+            if isinstance(loop, (ast.For, ast.While)):
+                loop.body = fold(loop.body)
 
     # ---------------------------------------------------------------- if not c: A else: B
     def _swap_negated_if(self, fn):
